@@ -991,6 +991,14 @@ class Interp:
             for a in e.args[1:] if fnm == "islice" else []:
                 self.eval(fr, a)
             return self.new_list(self.iter_elem(fr, e))
+        if norm(e.func) == "bool" and len(e.args) == 1 and not e.keywords:
+            t = self.truth(fr, e.args[0])
+            if t is True or t is False:
+                return Const(t)
+        if norm(e.func) == "isinstance" and len(e.args) == 2:
+            t = self.truth(fr, e)
+            if t is True or t is False:
+                return Const(t)
         f = self.eval(fr, e.func)
         args: List[V] = []
         for a in e.args:
